@@ -101,8 +101,11 @@ def own_overwrite(ctx, prog, own, eff, rule='OWN-OVERWRITE'):
                 ctx.ob(rule, key + ':realloc', True, f.loc(n), '%s replaced in place by realloc' % lv, None)
                 continue
             if (f.name, lv) in CORRELATED:
-                ctx.ob(rule, key, True, f.loc(n), 'frozen: %s' % CORRELATED[(f.name, lv)], None)
-                continue
+                # the written argument covers the allocation under `count == 0` only: every guard alternative of this store must contain that equality
+                alts_ = _alts(f, n)
+                if alts_ and all(any(k_.endswith('->count') and v_ == 0 for k_, v_ in a_.items()) for a_ in alts_):
+                    ctx.ob(rule, key, True, f.loc(n), 'frozen: %s' % CORRELATED[(f.name, lv)], None)
+                    continue
             bd = Bounds(prog, f, eff)
             defs = local_defs(f)
             aliases = {lv}
